@@ -366,7 +366,9 @@ size_t varintAdaptiveEncodeWith(uint8_t *dst, const uint64_t *values,
     }
 
     case VARINT_ADAPTIVE_FOR: {
-        varintFORMeta forMeta;
+        /* Zero-initialised: varintFOREncode treats metadata whose count
+         * matches as already analysed, so it must not see stack residue */
+        varintFORMeta forMeta = {0};
         encodedSize = varintFOREncode(dst + offset, values, count, &forMeta);
 
         if (meta) {
